@@ -4,8 +4,10 @@ import (
 	"errors"
 	"fmt"
 	"os"
+	"os/exec"
 	"sort"
 	"strings"
+	"syscall"
 
 	"verifharness/client"
 	"verifharness/core"
@@ -63,9 +65,13 @@ func c07Keysets(env *menv.Env) string {
 }
 
 func c07Setup(r *core.Run, sc c07Scen, seed int64) (*c07Ctx, error) {
+	return c07SetupDir(r, sc, seed, core.TempDir("c07"))
+}
+
+func c07SetupDir(r *core.Run, sc c07Scen, seed int64, dir string) (*c07Ctx, error) {
 	world := lnmodel.NewWorld(seed)
 	world.AutoDeliver = false
-	env, err := menv.New(world, "m0", core.TempDir("c07"), menv.Opts{})
+	env, err := menv.New(world, "m0", dir, menv.Opts{})
 	if err != nil {
 		return nil, err
 	}
@@ -238,6 +244,9 @@ func runC07(r *core.Run) {
 		}
 		c07Run(r, j.sc, j.mode, j.k, j.n, sig, int64(ji))
 	})
+	if !quick(r) {
+		c07SigkillCrossCheck(r)
+	}
 }
 
 func c07Run(r *core.Run, sc c07Scen, mode string, k, n int, sig string, seed int64) {
@@ -567,4 +576,149 @@ func maxu64(a, b uint64) uint64 {
 		return a
 	}
 	return b
+}
+
+// ---------------------------------------------------------------------------
+// cross-check of the in-process crash simulation against a real SIGKILL
+
+func c07Scenarios() []c07Scen {
+	succ := lnmodel.PayPlan{Answer: lnmodel.ASucceeded}
+	return []c07Scen{
+		{name: "mint", kind: "mint"},
+		{name: "swap", kind: "swap"},
+		{name: "melt-success", kind: "melt", plan: succ},
+		{name: "melt-failed", kind: "melt", plan: lnmodel.PayPlan{Answer: lnmodel.AFailed}},
+		{name: "rotate", kind: "rotate"},
+	}
+}
+
+// abstractDigest: what the completed storage calls left behind, independent of random ids.
+func abstractDigest(dir string) (string, error) {
+	snap, err := menv.SnapshotDir(dir)
+	if err != nil {
+		return "", err
+	}
+	var parts []string
+	col := map[string]int{"mint_quotes": 4, "melt_quotes": 5, "keysets": 2}
+	for _, t := range []string{"keysets", "proofs", "pending_proofs", "mint_quotes", "melt_quotes", "blind_signatures"} {
+		rows := snap[t]
+		var vals []string
+		if c, ok := col[t]; ok {
+			for _, row := range rows {
+				f := strings.Split(row, "|")
+				if c < len(f) {
+					vals = append(vals, f[c])
+				}
+			}
+			sort.Strings(vals)
+		}
+		parts = append(parts, fmt.Sprintf("%s:%d%v", t, len(rows), vals))
+	}
+	return strings.Join(parts, " "), nil
+}
+
+// CrashChild is the entry point of the child process: set up scenario si in dir and
+// kill the process (SIGKILL) instead of performing the k-th DB/LN call of the operation.
+func CrashChild(si, k int, dir string, seed int64) {
+	r := core.Start("C07", "thorough", seed, "fault_enumeration")
+	sc := c07Scenarios()[si]
+	c, err := c07SetupDir(r, sc, seed*100_000+int64(si), dir)
+	if err != nil {
+		fmt.Println("setup failed:", err)
+		os.Exit(7)
+	}
+	n := 0
+	c.env.Hub.SetController(&killCtl{k: k, n: &n})
+	c.env.Hub.Register("op")
+	c07Op(sc, c)
+	// the operation completed: k was beyond the last call — die before "responding"
+	syscall.Kill(os.Getpid(), syscall.SIGKILL)
+	select {}
+}
+
+type killCtl struct {
+	k int
+	n *int
+}
+
+func (kc *killCtl) Before(ev *ctl.Event) (ctl.Decision, error) {
+	if ev.Thread != "op" {
+		return ctl.Proceed, nil
+	}
+	if *kc.n == kc.k {
+		syscall.Kill(os.Getpid(), syscall.SIGKILL)
+		select {}
+	}
+	*kc.n++
+	return ctl.Proceed, nil
+}
+func (kc *killCtl) After(ev *ctl.Event, err error) {}
+
+// c07SigkillCrossCheck (thorough): for a subset of scenarios and every k, the data
+// directory left by the simulated crash equals (abstractly) the one left by SIGKILL.
+func c07SigkillCrossCheck(r *core.Run) {
+	self, err := os.Executable()
+	if err != nil {
+		r.Inconclusive("cannot find own executable")
+		return
+	}
+	for si, sc := range c07Scenarios() {
+		// boundaries of the scenario
+		c, err := c07Setup(r, sc, r.Seed*100_000+int64(si))
+		if err != nil {
+			r.Inconclusive("setup: " + err.Error())
+			continue
+		}
+		cnt := &ctl.Counter{Filter: func(ev *ctl.Event) bool { return ev.Thread == "op" }}
+		c.env.Hub.SetController(cnt)
+		c.env.Hub.Register("op")
+		c07Op(sc, c)
+		c.env.Hub.Unregister()
+		n := len(cnt.Events)
+		c.env.Close()
+		os.RemoveAll(c.env.Dir)
+		core.Parallel(n+1, 8, func(k int) {
+			sig := fmt.Sprintf("sigkill/%s/k%d", sc.name, k)
+			if !r.Want(sig) {
+				return
+			}
+			// (a) simulated
+			cs, err := c07Setup(r, sc, r.Seed*100_000+int64(si))
+			if err != nil {
+				r.Inconclusive("setup: " + err.Error())
+				return
+			}
+			inj := &ctl.Injector{K: k, Mode: ctl.Crash, Filter: func(ev *ctl.Event) bool { return ev.Thread == "op" }}
+			cs.env.Hub.SetController(inj)
+			cs.env.Hub.Register("op")
+			c07Op(sc, cs)
+			cs.env.Hub.Unregister()
+			cs.env.Abandon()
+			simDigest, err1 := abstractDigest(cs.env.Dir)
+			os.RemoveAll(cs.env.Dir)
+			// (b) real SIGKILL in a child process
+			dir := core.TempDir("c07kill")
+			cmd := exec.Command(self, "crashchild", fmt.Sprint(si), fmt.Sprint(k), dir, fmt.Sprint(r.Seed))
+			out, _ := cmd.CombinedOutput()
+			killed := cmd.ProcessState != nil && !cmd.ProcessState.Exited()
+			realDigest, err2 := abstractDigest(dir)
+			os.RemoveAll(dir)
+			r.Eval(sig, killed)
+			if !killed {
+				r.Inconclusive("child was not killed: " + truncStr(string(out), 200))
+				return
+			}
+			if err1 != nil || err2 != nil {
+				r.Inconclusive(fmt.Sprintf("digest: %v %v", err1, err2))
+				return
+			}
+			r.Count("sigkill_cross_checks", 1)
+			if simDigest != realDigest {
+				r.Violate("crash-model-mismatch:"+sc.name, fmt.Sprintf("k=%d: the simulated crash leaves [%s], a real SIGKILL at the same call leaves [%s]", k, simDigest, realDigest), sig, nil)
+			}
+			if k == n/2 {
+				r.Sample("sigkill/"+sc.name, map[string]any{"scenario": sc.name, "k": k, "state_left_by_sigkill": realDigest, "state_left_by_simulation": simDigest})
+			}
+		})
+	}
 }
